@@ -454,6 +454,7 @@ pub fn gen_op(rng: &mut Rng, sh: &WorldShape, pr: &Profile) -> Op {
                 2 => Forge::Raw { key: rng.next() as u32, ver: rng.next() as u32 },
                 3 => Forge::Raw { key: (rng.below(12) as u32) << 8 | rng.below(256) as u32, ver: 1 + rng.below(4) as u32 },
                 4 | 5 | 6 | 7 => Forge::Aimed { a, idb: rng.below(4) as u8, pos: rng.below(7) as u8, n: rng.next() as u32, gen: rng.below(10) as u8 },
+                8 => Forge::Alien { n: rng.next() as u32 },
                 _ => Forge::Direct { a, idx: rng.below(8) as u8 },
             };
             Op::Forge { f: fz }
